@@ -737,14 +737,26 @@ func ammodecExtra(t *tr) string {
 	if obj := p.Types.Scope().Lookup("entity"); obj != nil {
 		if st, ok := obj.Type().Underlying().(*types.Struct); ok {
 			for i := 0; i < st.NumFields(); i++ {
-				tag := reflect.StructTag(st.Tag(i)).Get("json")
-				tags = append(tags, fmt.Sprintf("(%q, %q, %q)", st.Field(i).Name(), tag, st.Field(i).Type().String()))
+				// the name encoding/json decodes into this field: the tag's name (or the field's name), matched
+				// case-insensitively - so it is recorded in lower case; Go field names and field order do not matter
+				if !st.Field(i).Exported() {
+					continue
+				}
+				name, _, _ := strings.Cut(reflect.StructTag(st.Tag(i)).Get("json"), ",")
+				if name == "-" {
+					continue
+				}
+				if name == "" {
+					name = st.Field(i).Name()
+				}
+				tags = append(tags, fmt.Sprintf("(%q, %q)", strings.ToLower(name), st.Field(i).Type().String()))
 			}
+			sort.Strings(tags)
 		}
 	}
 	if len(tags) == 0 {
 		x.fail(p, nil, "struct entity not found")
 	}
-	w("/-- fields of `entity`: (Go field, json tag, type) -/\ndef entityFields : List (String × String × String) := [%s]\n", strings.Join(tags, ", "))
+	w("/-- fields of `entity`: (the json name encoding/json decodes into the field, in lower case: names are matched case-insensitively; type), sorted -/\ndef entityFields : List (String × String) := [%s]\n", strings.Join(tags, ", "))
 	return b.String() + ammodecR4(t) + ammodecR6(t)
 }
